@@ -1067,7 +1067,12 @@ def saveframe(filename=None, frames=None, variables=None, exclude_variables=None
 
     if frames is None:
         # Get the instance of the interactive session the user is currently in.
-        interactive_session_obj = sys._getframe().f_back.f_back.f_locals.get('self')
+        # When called from the top level of the plain Python REPL or of a
+        # script, the caller has no caller.
+        session_frame = sys._getframe().f_back.f_back
+        interactive_session_obj = (
+            session_frame.f_locals.get('self') if session_frame is not None
+            else None)
         # If the user is currently in a debugger (ipdb/pdb), save the frame the
         # user is currently at in the debugger.
         if interactive_session_obj and hasattr(interactive_session_obj, 'curframe'):
